@@ -48,7 +48,7 @@ fn fp_type(t: TypeNodeId, o: &mut String, d: usize) {
             o.push(')');
         }
         Type::Tuple(v) => {
-            o.push_str("(tuple");
+            o.push_str("(ttuple");
             for t in v {
                 o.push(' ');
                 fp_type(t, o, d + 1);
@@ -572,6 +572,12 @@ pub struct Features {
     /// parentheses of a parenthesised element type `((T), U)` of a tuple type: they are direct
     /// children of the tuple type node and the list printer prints only one pair per node
     pub unprinted_type_parens: Vec<usize>,
+    /// the same for the token alignment (tokens of the input that have no counterpart in the output)
+    pub align_skip: Vec<usize>,
+    /// `{` of a record type that holds a parenthesised element type: printed as `(`
+    pub align_replace: Vec<(usize, &'static str)>,
+    /// last token of a union type that is the return type of a lambda (`|x| -> A | B body`)
+    pub lambda_union_ret_last: Vec<usize>,
 }
 
 #[derive(Clone, Debug)]
@@ -583,6 +589,8 @@ pub struct CommentSite {
     pub block: bool,
     /// kind of the non-trivia token the comment is attached to
     pub owner: TokenKind,
+    /// its token index
+    pub owner_token: usize,
     /// attached as leading trivia (own line before the token) rather than trailing
     pub leading: bool,
     /// syntax kind of the innermost CST node that holds the owner token
@@ -628,21 +636,7 @@ fn walk(arena: &GreenNodeArena, id: GreenNodeId, parent: Option<SyntaxKind>, f: 
                 }
                 SyntaxKind::TupleExpr | SyntaxKind::TupleType => {
                     if *kind == SyntaxKind::TupleType {
-                        let direct = |want: TokenKind| -> Vec<usize> {
-                            children
-                                .iter()
-                                .filter_map(|c| match arena.get(*c) {
-                                    GreenNode::Token { token_index, .. } if tokens.get(*token_index).map(|t| t.kind) == Some(want) => Some(*token_index),
-                                    _ => None,
-                                })
-                                .collect()
-                        };
-                        let opens = direct(TokenKind::ParenBegin);
-                        let closes = direct(TokenKind::ParenEnd);
-                        f.unprinted_type_parens.extend(opens.iter().skip(1));
-                        if !closes.is_empty() {
-                            f.unprinted_type_parens.extend(&closes[..closes.len() - 1]);
-                        }
+                        type_list_delims(arena, children, tokens, false, f);
                     }
                     let tk = |c: &GreenNodeId| match arena.get(*c) {
                         GreenNode::Token { token_index, .. } => tokens.get(*token_index).map(|t| (t.kind, *token_index)),
@@ -656,6 +650,7 @@ fn walk(arena: &GreenNodeArena, id: GreenNodeId, parent: Option<SyntaxKind>, f: 
                     }
                 }
                 SyntaxKind::RecordType => {
+                    type_list_delims(arena, children, tokens, true, f);
                     if children.iter().any(|c| matches!(arena.get(*c), GreenNode::Token { token_index, .. } if tokens.get(*token_index).map(|t| t.kind) == Some(TokenKind::Colon))) {
                         f.record_type_fields = true;
                     }
@@ -685,6 +680,13 @@ fn walk(arena: &GreenNodeArena, id: GreenNodeId, parent: Option<SyntaxKind>, f: 
                 _ => {}
             }
             if *kind == SyntaxKind::LambdaExpr {
+                for c in children {
+                    if arena.kind(*c) == Some(SyntaxKind::UnionType) {
+                        if let Some(l) = last_token(arena, *c, 0) {
+                            f.lambda_union_ret_last.push(l);
+                        }
+                    }
+                }
                 let bars: Vec<usize> = children.iter().enumerate().filter(|(_, c)| matches!(arena.get(**c), GreenNode::Token { token_index, .. } if tokens.get(*token_index).map(|t| t.kind) == Some(TokenKind::LambdaArgBeginEnd))).map(|(i, _)| i).collect();
                 if bars.len() >= 2 && bars[1] == bars[0] + 1 {
                     f.empty_lambda = true;
@@ -734,6 +736,47 @@ fn lca_walk(arena: &GreenNodeArena, id: GreenNodeId, lca: &mut Vec<Option<Syntax
     }
 }
 
+/// The list printer prints one opening and one closing delimiter per list node: the LAST
+/// opener / closer among the node's direct children.  The parentheses of a parenthesised element
+/// type `(T)` are direct children of the enclosing tuple / record type node.
+fn type_list_delims(arena: &GreenNodeArena, children: &[GreenNodeId], tokens: &[Token], record: bool, f: &mut Features) {
+    let direct = |want: &[TokenKind]| -> Vec<usize> {
+        children
+            .iter()
+            .filter_map(|c| match arena.get(*c) {
+                GreenNode::Token { token_index, .. } if tokens.get(*token_index).map(|t| want.contains(&t.kind)).unwrap_or(false) => Some(*token_index),
+                _ => None,
+            })
+            .collect()
+    };
+    let opens = direct(&[TokenKind::ParenBegin, TokenKind::BlockBegin]);
+    let closes = direct(&[TokenKind::ParenEnd, TokenKind::BlockEnd]);
+    if opens.len() >= 2 {
+        f.unprinted_type_parens.extend(&opens[..opens.len() - 1]);
+        if record {
+            f.align_replace.push((opens[0], "("));
+            f.align_skip.extend(&opens[1..]);
+        } else {
+            // all parentheses read the same: align the first one with the printed one
+            f.align_skip.extend(&opens[1..]);
+        }
+    }
+    if closes.len() >= 2 {
+        f.unprinted_type_parens.extend(&closes[..closes.len() - 1]);
+        f.align_skip.extend(&closes[..closes.len() - 1]);
+    }
+}
+
+fn last_token(arena: &GreenNodeArena, id: GreenNodeId, depth: usize) -> Option<usize> {
+    if depth > 5000 {
+        return None;
+    }
+    match arena.get(id) {
+        GreenNode::Token { token_index, .. } => Some(*token_index),
+        GreenNode::Internal { children, .. } => children.iter().rev().find_map(|c| last_token(arena, *c, depth + 1)),
+    }
+}
+
 fn first_token(arena: &GreenNodeArena, id: GreenNodeId, depth: usize) -> Option<usize> {
     if depth > 5000 {
         return None;
@@ -775,6 +818,7 @@ pub fn features(src: &str) -> Option<Features> {
                 text: t.text(src).trim_end().to_string(),
                 block: t.kind == TokenKind::MultiLineComment,
                 owner: tokens2[owner_tok].kind,
+                owner_token: owner_tok,
                 leading,
                 parent: tok_parent[owner_tok],
                 file_header: ti < first_nt,
@@ -801,4 +845,89 @@ pub fn features(src: &str) -> Option<Features> {
     f.if_cond_bare = f.if_cond_first.iter().any(|ti| tokens2.get(*ti).map(|t| t.text(src).starts_with(|c: char| c.is_alphanumeric() || c == '_')).unwrap_or(false));
     f.n_comments = tokens2.iter().filter(|t| matches!(t.kind, TokenKind::SingleLineComment | TokenKind::MultiLineComment)).count();
     Some(f)
+}
+
+// ---------------------------------------------------------------------------------------------
+// fingerprint normalisation used by one known finding: `(tuple X)` with one element and
+// `(paren X)` are both replaced by `X` (expression level only; tuple types are tagged `ttuple`)
+// ---------------------------------------------------------------------------------------------
+
+enum Sx {
+    Atom(String),
+    List(Vec<Sx>),
+}
+
+fn sx_parse(b: &[u8], pos: &mut usize, depth: usize) -> Vec<Sx> {
+    let mut out = vec![];
+    while *pos < b.len() {
+        match b[*pos] {
+            b')' => {
+                *pos += 1;
+                return out;
+            }
+            b'(' if depth < 4000 => {
+                *pos += 1;
+                out.push(Sx::List(sx_parse(b, pos, depth + 1)));
+            }
+            c if c == b' ' || c == b'\n' => *pos += 1,
+            b'"' => {
+                let st = *pos;
+                *pos += 1;
+                while *pos < b.len() && b[*pos] != b'"' {
+                    if b[*pos] == b'\\' {
+                        *pos += 1;
+                    }
+                    *pos += 1;
+                }
+                *pos = (*pos + 1).min(b.len());
+                out.push(Sx::Atom(String::from_utf8_lossy(&b[st..*pos]).to_string()));
+            }
+            _ => {
+                let st = *pos;
+                while *pos < b.len() && !matches!(b[*pos], b' ' | b'\n' | b'(' | b')') {
+                    *pos += 1;
+                }
+                if *pos == st {
+                    *pos += 1;
+                }
+                out.push(Sx::Atom(String::from_utf8_lossy(&b[st..*pos]).to_string()));
+            }
+        }
+    }
+    out
+}
+
+fn sx_print(x: &Sx, o: &mut String) {
+    match x {
+        Sx::Atom(a) => o.push_str(a),
+        Sx::List(v) => {
+            if v.len() == 2 {
+                if let Sx::Atom(h) = &v[0] {
+                    if h == "tuple" || h == "paren" {
+                        sx_print(&v[1], o);
+                        return;
+                    }
+                }
+            }
+            o.push('(');
+            for (i, c) in v.iter().enumerate() {
+                if i > 0 {
+                    o.push(' ');
+                }
+                sx_print(c, o);
+            }
+            o.push(')');
+        }
+    }
+}
+
+pub fn without_single_tuples(fp: &str) -> String {
+    let mut pos = 0;
+    let v = sx_parse(fp.as_bytes(), &mut pos, 0);
+    let mut o = String::new();
+    for x in &v {
+        sx_print(x, &mut o);
+        o.push('\n');
+    }
+    o
 }
